@@ -16,6 +16,8 @@ CUR = ["A(0) S(0,0,1) T(0,1) C(0) A(1) T(1,1) Y(1,0) R(0,1,0) Z", "A(0) S(0,0,1)
        "A(0) O(0,-1) S(0,0,1) C(0) A(1) R(0,1,0) Z", "A(0) O(0,50) S(0,0,1) T(0,1) K(10) K(50) T(0,1) Y(0,0) R(0,1,0) Z",
        "A(0) S(0,0,1) T(0,1) K(70000) C(0) A(1) T(1,1) Z", "A(0) S(0,0,1) R(0,1,1) T(0,1) X(1) K(70000) Z",
        "A(0) S(0,0,1) T(0,1) Y(0,2) Y(0,4)", "A(0) S(0,0,1) R(0,1,1) R(0,2,0)", "R(0,0,0) Z", "A(0) S(0,0,1) T(0,1) K(70000) Y(0,5) Y(0,0) R(0,1,0)"]
+# the resend timer exactly at / one tick after its deadline (default resend time 60 s), first copy unanswered on a live connection
+CUR += ["A(0) S(0,0,1) T(0,1) K(60000) T(0,1) Z", "A(0) S(0,0,1) T(0,1) K(59999) K(1) T(0,1) Z", "A(0) S(0,0,1) K(60000) T(0,1) K(60000) Z", "A(0) A(1) S(0,0,1) T(0,1) K(60000) T(1,1) Z"]
 ALPHA = ["A(0)", "A(1)", "S(0,%d,1)", "T(0,1)", "T(0,0)", "T(1,1)", "C(0)", "K(70000)", "K(10)", "O(0,-1)", "Y(0,0)", "R(0,%d,1)"]
 
 
